@@ -194,6 +194,23 @@ def run(fx, tier):
                         o = origin(f, cond)
                         if pol == 'T' and contains(o, lambda n: is_call(n, 'any_of')):
                             g = True
+                    # ... and not only when the marker is ALREADY set (an outer `if (!subscriptions_present())` is an optimisation;
+                    # its inversion means the marker is never set and a lost session is never reported)
+                    for cond, pol, gb in edge_guards(f, b):
+                        o = origin(f, cond)
+                        from flow import split_logical
+                        inner, p_ = o, pol
+                        for _ in range(3):
+                            ui = unwrap(inner)
+                            if isinstance(ui, dict) and ui.get('k') == 'un' and ui.get('op') == '!':
+                                inner, p_ = ui.get('e'), ('F' if p_ == 'T' else 'T')
+                            else:
+                                break
+                        ui = unwrap(inner)
+                        if isinstance(ui, dict) and ui.get('k') == 'call' and callee_name(ui) == 'subscriptions_present' and not ui.get('args'):
+                            v.check(p_ == 'F', 'R-OWN', 'subscribe_op::complete marker guard [%s]' % f.tu,
+                                    'the marker is set on the edge where it is not set yet (guard subscriptions_present() is %s there)' % ('false' if p_ == 'F' else 'TRUE'),
+                                    key='C13:R-OWN:subscribe_op:marker-guard-polarity', where='%s:%d' % (f.path_file(), l))
                     v.check(val == 1 and g, 'R-OWN', 'subscribe_op::complete sets subscriptions_present [%s]' % f.tu,
                             'set to true only when some reason code of the SUBACK is a success (guarded=%s)' % g,
                             key='C13:R-OWN:subscribe_op:subscriptions_present', where='%s:%d' % (f.path_file(), l))
